@@ -725,6 +725,56 @@ func emitWeights(c *Ctx) {
 	c.Count("weights=" + strings.Fields(out+" x")[0])
 }
 
+// tpsStress: a start position outside anything a game produces (very tall stacks, many capstones,
+// more pieces than the reserves hold, any ply), followed by random well-formed moves.
+func tpsStress(r *RNG) []byte {
+	size := 3 + r.Intn(6)
+	var rows []string
+	for y := 0; y < size; y++ {
+		var cells []string
+		for x := 0; x < size; x++ {
+			switch k := r.Intn(10); {
+			case k < 4:
+				cells = append(cells, "x")
+			default:
+				h := 1 + r.Intn(4)
+				if r.Chance(1, 8) {
+					h = []int{63, 64, 65, 66, 100, 127, 128, 129, 255, 256, 257, 300}[r.Intn(12)]
+				}
+				var b strings.Builder
+				for j := 0; j < h; j++ {
+					b.WriteByte("12"[r.Intn(2)])
+				}
+				b.WriteString([]string{"", "", "", "S", "C"}[r.Intn(5)])
+				cells = append(cells, b.String())
+			}
+		}
+		rows = append(rows, strings.Join(cells, ","))
+	}
+	tps := fmt.Sprintf("%s %d %d", strings.Join(rows, "/"), 1+r.Intn(2), []int{1, 1, 2, 3, 10, 0, -3, 1 << 40}[r.Intn(8)])
+	var b strings.Builder
+	fmt.Fprintf(&b, "[Size \"%d\"]\n[TPS \"%s\"]\n\n", size, tps)
+	for k := r.Intn(12); k > 0; k-- {
+		x, y := r.Intn(size), r.Intn(size)
+		sq := string([]byte{byte('a' + x), byte('1' + y)})
+		switch r.Intn(5) {
+		case 0:
+			b.WriteString([]string{"", "S", "C", "F"}[r.Intn(4)] + sq)
+		default:
+			n := 1 + r.Intn(size)
+			mv := strconv.Itoa(n) + sq + string("<>+-"[r.Intn(4)])
+			for n > 0 && r.Chance(2, 3) {
+				d := 1 + r.Intn(n)
+				mv += strconv.Itoa(d)
+				n -= d
+			}
+			b.WriteString(mv)
+		}
+		b.WriteByte(' ')
+	}
+	return []byte(b.String())
+}
+
 func genC13ptn(c *Ctx) {
 	c.Timeout = 20 * time.Second
 	r := c.R
@@ -735,11 +785,16 @@ func genC13ptn(c *Ctx) {
 	}
 	td := testdataFiles()
 	n := c.Scale(24000, 2400000)
+	var poolText []byte
+	poolUse := 0
 	for k := 0; k < n; k++ {
 		switch x := r.Intn(20); {
 		case x < 9: // structure-aware mutation of a generated game
-			g := randomGame(c)
-			text := []byte(g.p.Render())
+			if poolUse%8 == 0 { // a fresh game every 8 mutations (game generation dominates the cost)
+				poolText = []byte(randomGame(c).p.Render())
+			}
+			poolUse++
+			text := poolText
 			if r.Chance(1, 4) {
 				text = append(append([]byte{}, bom...), text...)
 			}
@@ -750,6 +805,8 @@ func genC13ptn(c *Ctx) {
 			}
 		case x < 13:
 			emitPTNInput(c, randPTNBytes(r, r.Intn(40)), "random-short")
+		case x < 14 && r.Chance(1, 2):
+			emitPTNInput(c, tpsStress(r), "tps-stress")
 		case x < 14:
 			emitPTNInput(c, append([]byte("[Size \""+strconv.Itoa(r.Intn(12))+"\"]\n"), randPTNBytes(r, r.Intn(200))...), "random-after-size")
 		case x < 17:
